@@ -645,8 +645,8 @@ func (c *Ctx) havocWrites(s *State, wv map[*types.Var]bool, wh map[string]bool) 
 					continue
 				}
 			}
-			if k == "X.alloc" {
-				oldAl := c.heapGet(s, "X.alloc", sA1)
+			if k == "X.alloc" || k == "X.ctxdone" || k == "X.closed" {
+				oldAl := c.heapGet(s, k, sA1)
 				c.heapHavoc(s, k, sA1)
 				newAl := s.heap[k]
 				s.assume(fmt.Sprintf("(forall ((r Int)) (! (=> (= (select %s r) 1) (= (select %s r) 1)) :pattern ((select %s r))))", oldAl, newAl, oldAl))
